@@ -206,7 +206,12 @@ def joliet(ctx):
     obs.append(Ob('SA-GATE.joliet', '%s|length test' % fi.qual, ok, ctx.loc(fi, fi.node),
                   '' if ok else 'the Joliet name gate no longer refuses long names with PyCdlibInvalidInput'))
     if ok:
-        ok2 = limit == 64
+        # 64 UTF-16 code units = 128 bytes when the measured value is the UTF-16 encoding itself
+        from .. import expand as _ex
+        measured = _ex.expand(ctx, fi, gate_node.ast.left.args[0], gate_node.stmt) if gate_node.stmt is not None else gate_node.ast.left.args[0]
+        utf16 = isinstance(measured, ast.Call) and isinstance(measured.func, ast.Attribute) and measured.func.attr == 'encode' and measured.args and \
+            isinstance(measured.args[0], ast.Constant) and str(measured.args[0].value).lower().replace('_', '-').startswith('utf-16')
+        ok2 = limit == (128 if utf16 else 64)
         obs.append(Ob('SA-GATE.joliet', '%s|limit' % fi.qual, ok2, ctx.loc(fi, gate_node.ast),
                       '' if ok2 else 'Joliet names longer than %s are accepted; the documented limit is 64' % limit))
         rets = [n for n in g.nodes if n.kind == 'stmt' and isinstance(n.ast, ast.Return)]
@@ -218,6 +223,15 @@ def joliet(ctx):
         ok4 = all(tested in norm(r.ast.value) for r in rets if r.ast.value is not None)
         obs.append(Ob('SA-GATE.joliet', '%s|same name' % fi.qual, ok4, ctx.loc(fi, fi.node),
                       '' if ok4 else 'the name whose length is tested (%s) is not the one returned' % tested))
+        # unit of measure: the 64 are UCS-2/UTF-16 code units.  len() of the UTF-8 bytes never under-counts them
+        # (1-3 bytes per BMP character = 1 unit, 4 bytes per supplementary character = 2 units); len() of a str
+        # counts code points and under-counts every character outside the BMP.
+        tt = ctx.t.expr_type(gate_node.ast.left.args[0], fi)
+        is_bytes = tt is not None and tt[0] == 'prim' and tt[1] == 'bytes'
+        obs.append(Ob('SA-GATE.joliet', '%s|unit' % fi.qual, is_bytes, ctx.loc(fi, gate_node.ast),
+                      '' if is_bytes else 'the Joliet length limit is applied to `%s` of type %s: only a bytes value (UTF-8 or UTF-16 encoded) bounds the number of '
+                      'UTF-16 code units; a str counts code points, so names with characters outside the BMP pass with up to twice the allowed length'
+                      % (norm(gate_node.ast.left.args[0]), tt)))
     # every creation of a record in the Joliet VD takes its name from the gate: calls new_file/new_dir whose
     # first argument is self.joliet_vd
     n = 0
